@@ -382,10 +382,18 @@ func genProgram(r *rand.Rand, depth int, random bool) program {
 		g.use("random")
 		sb.WriteString("RETURN { p: @p, q: @q, r: " + body + ", t: RANDOM_TOKEN(8), u: LENGTH(RANDOM_TOKEN(@p % 5 + 1)), v: (FOR i IN 1..3 RETURN RANDOM_TOKEN(4)) }")
 	} else {
+		// regular expressions with patterns that depend on the run's parameters (a shared
+		// cache of compiled patterns shows up under concurrent runs); one program in four,
+		// compiling a pattern is slow under the race detector
+		rx := ""
+		if g.r.Intn(4) == 0 {
+			g.use("regex-dynamic-pattern")
+			rx = `, rx: (FOR i IN 1..3 RETURN CONCAT(@q, TO_STRING(@p + i)) =~ CONCAT("^", @q, TO_STRING(@p + i), "x*$")), rn: @q !~ CONCAT("^zz", @q, TO_STRING(@p), "+$")`
+		}
 		// besides the generated body: node kinds whose per-run state depends on the
 		// run's own parameters (computed member paths, LIMIT operands, DISTINCT
 		// tables, glob patterns) - a cache on the expression tree shows up here
-		sb.WriteString("RETURN { p: @p, q: @q, r: " + body + `, m: [11,22,33,44,55,66,77,88][@p % 8], mm: [[1,2],[3,4],[5,6]][@p % 3][@p % 2], mo: {k0: 1, k1: 2, k2: 3}[CONCAT("k", TO_STRING(@p % 3))], lw: (FOR i IN 1..9 LIMIT @p, 2 RETURN i), dw: (FOR i IN [1, 2, 2, @p, @p] RETURN DISTINCT i), lk: @q LIKE CONCAT(SUBSTRING(@q, 0, 1), "*")` + " }")
+		sb.WriteString("RETURN { p: @p, q: @q, r: " + body + `, m: [11,22,33,44,55,66,77,88][@p % 8], mm: [[1,2],[3,4],[5,6]][@p % 3][@p % 2], mo: {k0: 1, k1: 2, k2: 3}[CONCAT("k", TO_STRING(@p % 3))], lw: (FOR i IN 1..9 LIMIT @p, 2 RETURN i), dw: (FOR i IN [1, 2, 2, @p, @p] RETURN DISTINCT i), lk: @q LIKE CONCAT(SUBSTRING(@q, 0, 1), "*")` + rx + " }")
 	}
 	var kinds []string
 	for k := range g.kinds {
@@ -436,6 +444,18 @@ func echoOK(out string, pv int, qv string) bool {
 	return ok1 && ok2 && int(p) == pv && q == qv
 }
 
+// one second compiler per process for the reference copies (building a compiler
+// registers the whole library, which is slow under the race detector); every
+// reference still is the first run of its own freshly compiled program
+var seqKnown = map[int]bool{} // program index -> compiles (on the second compiler, sequentially)
+var refCompilerOnce sync.Once
+var refCompilerV *compiler.Compiler
+
+func refCompiler() *compiler.Compiler {
+	refCompilerOnce.Do(func() { refCompilerV = compiler.New() })
+	return refCompilerV
+}
+
 func observe(c *compiler.Compiler, progs []program, seqOK []bool, i int, seed int64) result {
 	pr := progs[i]
 	rng := rand.New(rand.NewSource(seed))
@@ -478,7 +498,7 @@ func observe(c *compiler.Compiler, progs []program, seqOK []bool, i int, seed in
 	// the runs above cannot leak into the reference
 	refs := make([]outcome, G)
 	for g := 0; g < G; g++ {
-		fp, ferr := compiler.New().Compile(pr.Text)
+		fp, ferr := refCompiler().Compile(pr.Text)
 		if ferr != nil {
 			fp = p
 		}
@@ -492,7 +512,19 @@ func observe(c *compiler.Compiler, progs []program, seqOK []bool, i int, seed in
 			res.Runs++
 		}
 	}
-	// a goroutine that keeps compiling on the same compiler
+	// a goroutine that keeps compiling on the same compiler: six programs near this
+	// one, whose sequential verdict comes from the second compiler (computed here, so
+	// that a restarted worker does not have to compile every program first)
+	var cands []int
+	for d := 1; d <= 6; d++ {
+		j := (i + d*7) % len(progs)
+		if _, done := seqKnown[j]; !done {
+			q, err := refCompiler().Compile(progs[j].Text)
+			seqKnown[j] = err == nil && q != nil
+		}
+		seqOK[j] = seqKnown[j]
+		cands = append(cands, j)
+	}
 	stop := make(chan struct{})
 	var cwg sync.WaitGroup
 	var cmu sync.Mutex
@@ -506,7 +538,7 @@ func observe(c *compiler.Compiler, progs []program, seqOK []bool, i int, seed in
 				return
 			default:
 			}
-			j := crng.Intn(len(progs))
+			j := cands[crng.Intn(len(cands))]
 			q, err := c.Compile(progs[j].Text)
 			if (err == nil && q != nil) != seqOK[j] {
 				cmu.Lock()
@@ -583,6 +615,31 @@ func observe(c *compiler.Compiler, progs []program, seqOK []bool, i int, seed in
 	}
 	close(start)
 	wg.Wait()
+	// 4. concurrent first use of parameter values this process has never seen (the
+	// references above were run one after the other and would have warmed any
+	// process-wide cache keyed by a value): only the parameter echo is compared;
+	// what this phase exposes is a race / crash on shared state
+	start = make(chan struct{})
+	for g := 0; g < G; g++ {
+		wg.Add(1)
+		go func(g int) {
+			defer wg.Done()
+			<-start
+			pv, qv := 100+g, fmt.Sprintf("n%dx%d", i, g) // @p stays small (it bounds ranges), @q is new
+			o := run(p, pv, qv)
+			mu.Lock()
+			res.Runs++
+			if !o.Err && !echoOK(o.Bytes, pv, qv) {
+				res.Param = false
+				if res.Detail == "" {
+					res.Detail = fmt.Sprintf("goroutine %d of %d ran with fresh parameters @p=%d @q=%q and got %q", g, G, pv, qv, o.Bytes)
+				}
+			}
+			mu.Unlock()
+		}(g)
+	}
+	close(start)
+	wg.Wait()
 	close(stop)
 	cwg.Wait()
 	_ = note
@@ -596,6 +653,7 @@ func worker(args []string) {
 	in := fs.String("i", "", "")
 	outp := fs.String("o", "", "")
 	from := fs.Int("from", 0, "")
+	to := fs.Int("to", -1, "")
 	seed := fs.Int64("seed", 1, "")
 	Must(fs.Parse(args))
 	b, err := os.ReadFile(*in)
@@ -604,14 +662,10 @@ func worker(args []string) {
 	Must(json.Unmarshal(b, &progs))
 	c := compiler.New()
 	seqOK := make([]bool, len(progs))
-	for j := range progs {
-		q, err := c.Compile(progs[j].Text)
-		seqOK[j] = err == nil && q != nil
-	}
 	f, err := os.OpenFile(*outp, os.O_APPEND|os.O_CREATE|os.O_WRONLY, 0o644)
 	Must(err)
 	w := bufio.NewWriter(f)
-	for i := *from; i < len(progs); i++ {
+	for i := *from; i < len(progs) && (*to < 0 || i < *to); i++ {
 		fmt.Fprintf(os.Stderr, "@program %d\n", i)
 		r := observe(c, progs, seqOK, i, *seed*7919+int64(i))
 		jb, _ := json.Marshal(r)
@@ -697,7 +751,7 @@ func main() {
 	}
 	rng := rand.New(rand.NewSource(seed))
 	m := NewMeta("C12", tier, seed)
-	m.Rule = "one evaluation = one generated program compiled once on the shared compiler and run 5 times sequentially, from 2-16 goroutines (1-3 runs each) with equal parameters and again with one parameter value per goroutine, while another goroutine compiles other programs on the same compiler; non-trivial = the program compiles, its first run succeeds and it is inside the byte comparison; distinct = distinct program texts"
+	m.Rule = "one evaluation = one generated program compiled once on the shared compiler and run 5 times sequentially, from 2-16 goroutines (1-3 runs each) with equal parameters and again with one parameter value per goroutine, and once more with parameter values never used before in the process, while another goroutine compiles other programs on the same compiler; non-trivial = the program compiles, its first run succeeds and it is inside the byte comparison; distinct = distinct program texts"
 	progs := make([]program, nProg)
 	for i := range progs {
 		d := 1 + rng.Intn(depth)
@@ -719,82 +773,104 @@ func main() {
 		direct = append(direct, d)
 	}
 	env := append(os.Environ(), "GORACE=halt_on_error=0 exitcode=0 history_size=2")
-	from := 0
-	for attempts := 0; from < nProg && attempts < 50; attempts++ {
-		ctx, cancel := context.WithTimeout(context.Background(), 20*time.Minute)
-		cmd := exec.CommandContext(ctx, os.Args[0], "-worker", "-i", pin, "-o", rout, "-from", fmt.Sprint(from), "-seed", fmt.Sprint(seed))
-		cmd.Env = env
-		var eb bytes.Buffer
-		cmd.Stderr = &eb
-		cmd.Stdout = &eb
-		err := cmd.Run()
-		timedOut := ctx.Err() == context.DeadlineExceeded
-		cancel()
-		stderr := eb.String()
-		for _, r := range raceReports(stderr) {
-			text := ""
-			if r.prog >= 0 && r.prog < len(progs) {
-				text = progs[r.prog].Text
-			}
-			addDirect(map[string]interface{}{"key": "race: " + r.key, "kind": "schedule-log", "kinds": []string{"race"}, "tags": []string{"race"},
-				"what": fmt.Sprintf("data race reported by the race detector (%s) while program %d was run from several goroutines: %s", r.key, r.prog, oneLine(text, 300)),
-				"report": r.text, "program": text, "seed": seed})
-			m.Count("direct:race")
-		}
-		last := -1
-		for _, mm := range progRe.FindAllStringSubmatch(stderr, -1) {
-			fmt.Sscan(mm[1], &last)
-		}
-		if err == nil && !timedOut {
-			break
-		}
-		what := "crash"
-		line := ""
-		if timedOut {
-			what, line = "hang", "no result within 20 minutes"
-		} else {
-			for _, l := range strings.Split(stderr, "\n") {
-				if strings.HasPrefix(l, "fatal error:") || strings.HasPrefix(l, "panic:") {
-					line = l
+	// the programs are split into contiguous shards, one worker process each (a worker
+	// is restarted after the program that killed it); compiling is slow under the race
+	// detector and a worker runs its programs one after the other
+	nShards := 1
+	if tier == "thorough" {
+		nShards = 6
+	}
+	var dmu sync.Mutex
+	var swg sync.WaitGroup
+	for sh := 0; sh < nShards; sh++ {
+		swg.Add(1)
+		go func(lo, hi int, rout string) {
+			defer swg.Done()
+			os.Remove(rout)
+			from := lo
+			for attempts := 0; from < hi && attempts < 12; attempts++ {
+				ctx, cancel := context.WithTimeout(context.Background(), 20*time.Minute)
+				cmd := exec.CommandContext(ctx, os.Args[0], "-worker", "-i", pin, "-o", rout, "-from", fmt.Sprint(from), "-to", fmt.Sprint(hi), "-seed", fmt.Sprint(seed))
+				cmd.Env = env
+				var eb bytes.Buffer
+				cmd.Stderr = &eb
+				cmd.Stdout = &eb
+				err := cmd.Run()
+				timedOut := ctx.Err() == context.DeadlineExceeded
+				cancel()
+				stderr := eb.String()
+				dmu.Lock()
+				for _, r := range raceReports(stderr) {
+					text := ""
+					if r.prog >= 0 && r.prog < len(progs) {
+						text = progs[r.prog].Text
+					}
+					addDirect(map[string]interface{}{"key": "race: " + r.key, "kind": "schedule-log", "kinds": []string{"race"}, "tags": []string{"race"},
+						"what":   fmt.Sprintf("data race reported by the race detector (%s) while program %d was run from several goroutines: %s", r.key, r.prog, oneLine(text, 300)),
+						"report": r.text, "program": text, "seed": seed})
+					m.Count("direct:race")
+				}
+				last := -1
+				for _, mm := range progRe.FindAllStringSubmatch(stderr, -1) {
+					fmt.Sscan(mm[1], &last)
+				}
+				if err == nil && !timedOut {
+					dmu.Unlock()
 					break
 				}
+				what := "crash"
+				line := ""
+				if timedOut {
+					what, line = "hang", "no result within 20 minutes"
+				} else {
+					for _, l := range strings.Split(stderr, "\n") {
+						if strings.HasPrefix(l, "fatal error:") || strings.HasPrefix(l, "panic:") {
+							line = l
+							break
+						}
+					}
+					if line == "" {
+						line = err.Error()
+					}
+				}
+				text := ""
+				if last >= 0 && last < len(progs) {
+					text = progs[last].Text
+				}
+				snippet := stderr
+				if j := strings.Index(snippet, line); j >= 0 {
+					snippet = snippet[j:]
+				}
+				if len(snippet) > 3000 {
+					snippet = snippet[:3000]
+				}
+				addDirect(map[string]interface{}{"key": what + ": " + line, "kind": "input", "kinds": []string{what}, "tags": []string{what},
+					"what": fmt.Sprintf("%s while program %d was run concurrently: %s", line, last, oneLine(text, 300)), "program": text, "output": snippet, "seed": seed})
+				m.Count("direct:" + what)
+				if last < from {
+					last = from
+				}
+				from = last + 1
+				dmu.Unlock()
 			}
-			if line == "" {
-				line = err.Error()
-			}
-		}
-		text := ""
-		if last >= 0 && last < len(progs) {
-			text = progs[last].Text
-		}
-		snippet := stderr
-		if j := strings.Index(snippet, line); j >= 0 {
-			snippet = snippet[j:]
-		}
-		if len(snippet) > 3000 {
-			snippet = snippet[:3000]
-		}
-		addDirect(map[string]interface{}{"key": what + ": " + line, "kind": "input", "kinds": []string{what}, "tags": []string{what},
-			"what": fmt.Sprintf("%s while program %d was run concurrently: %s", line, last, oneLine(text, 300)), "program": text, "output": snippet, "seed": seed})
-		m.Count("direct:" + what)
-		if last < from {
-			last = from
-		}
-		from = last + 1
+		}(sh*nProg/nShards, (sh+1)*nProg/nShards, fmt.Sprintf("%s.%d", rout, sh))
 	}
+	swg.Wait()
 
 	// collect the observations
 	results := map[int]result{}
-	if f, err := os.Open(rout); err == nil {
-		sc := bufio.NewScanner(f)
-		sc.Buffer(make([]byte, 1<<20), 1<<26)
-		for sc.Scan() {
-			var r result
-			if json.Unmarshal(sc.Bytes(), &r) == nil {
-				results[r.Idx] = r
+	for sh := 0; sh < nShards; sh++ {
+		if f, err := os.Open(fmt.Sprintf("%s.%d", rout, sh)); err == nil {
+			sc := bufio.NewScanner(f)
+			sc.Buffer(make([]byte, 1<<20), 1<<26)
+			for sc.Scan() {
+				var r result
+				if json.Unmarshal(sc.Bytes(), &r) == nil {
+					results[r.Idx] = r
+				}
 			}
+			f.Close()
 		}
-		f.Close()
 	}
 	var obs strings.Builder
 	distinct := map[string]struct{}{}
